@@ -82,14 +82,14 @@ MC_EXTRA = {
 
 # random workload profiles of the harness: (profile, histories quick, histories thorough)
 PROFILES = {
-    "C01": [("general", 60, 900), ("big", 20, 300), ("quiet", 20, 300), ("huge", 5, 60)],
+    "C01": [("general", 60, 900), ("big", 20, 300), ("quiet", 20, 300), ("huge", 5, 60), ("evict_near", 60, 600)],
     "C02": [("cas", 80, 1200), ("general", 30, 400)],
     "C05": [("expiry", 80, 1200), ("delflush", 30, 400)],
     "C06": [("cond", 80, 1200), ("big", 20, 300), ("huge", 4, 40)],
     "C07": [("counter", 90, 1400), ("general", 20, 300)],
     "C08": [("delflush", 80, 1200), ("expiry", 30, 400)],
     "C14": [("evict_tight", 70, 1000)],
-    "C15": [("evict_roomy", 40, 500), ("evict_tight", 20, 300)],
+    "C15": [("evict_roomy", 40, 500), ("evict_tight", 20, 300), ("evict_near", 60, 600)],
     "C19": [("quiet", 60, 900), ("quietpair", 60, 900), ("general", 20, 300)],
 }
 
@@ -195,7 +195,7 @@ def classify(pid, results, findings):
                 f = match_finding(findings, pid, ident)
                 (known if f else out).append((res, v, ident, f))
         for n in res.get("notes", []):
-            if n[0].startswith(pid + "|"):
+            if n[0].startswith(pid + "|") or (pid == "C01" and n[0].startswith("C15|evict")):
                 ident = {"kind": "note", "note": n[0]}
                 v = {"line": n[2], "rule": n[0], "tags": [pid], "hist": None, "op": None}
                 f = match_finding(findings, pid, ident)
